@@ -966,18 +966,26 @@ ssize_t qlisttbl_load(qlisttbl_t *tbl, const char *filepath, char sepchar,
 
         // parse
         char *data = strdup(buf);
-        char *name  = _q_makeword(data, sepchar);
+        char *name  = (data != NULL) ? _q_makeword(data, sepchar) : NULL;
+        if (data == NULL || name == NULL) {
+            // out of memory, stop here and report the failure.
+            free(data);
+            cnt = -1;
+            break;
+        }
         qstrtrim(data);
         qstrtrim(name);
         if (decode == true) qurl_decode(data);
 
         // add to the table.
-        if (qlisttbl_put(tbl, name, data, strlen(data) + 1) == true) {
-            cnt++;
-        }
-
+        bool added = qlisttbl_put(tbl, name, data, strlen(data) + 1);
         free(name);
         free(data);
+        if (added == false) {
+            cnt = -1;
+            break;
+        }
+        cnt++;
     }
     tbl->inserttop = inserttop;
     qlisttbl_unlock(tbl);
